@@ -4,6 +4,7 @@ import (
 	"fmt"
 	"math/rand"
 	"os"
+	"strings"
 	"sync/atomic"
 	"time"
 
@@ -95,6 +96,26 @@ func (r *Rig) c09CmdFault(f c09Fault, on bool) {
 	}
 	target := map[string]string{"sensor": "sensor", "rpm": "rpm", "pwm-read": "get", "pwm-write": "set"}[f.Comp]
 	if target == "" {
+		return
+	}
+	if strings.HasPrefix(f.Kind, "script-") {
+		script, bak := r.state(target+".sh"), r.state(target+".sh.bak")
+		if on {
+			if _, err := os.Stat(bak); err == nil {
+				return
+			}
+			_ = os.Rename(script, bak)
+			switch f.Kind {
+			case "script-eloop":
+				_ = os.Symlink(script, script)
+			case "script-not-executable":
+				b, _ := os.ReadFile(bak)
+				_ = os.WriteFile(script, b, 0644)
+			}
+		} else if _, err := os.Stat(bak); err == nil {
+			_ = os.Remove(script)
+			_ = os.Rename(bak, script)
+		}
 		return
 	}
 	if f.Kind == "garbage" && target != "set" {
@@ -286,9 +307,11 @@ func c09Singles(spec RigSpec) []c09Fault {
 		kinds := []string{"eio", "empty", "garbage", "blank", "newline"}
 		isCmd := (comp == "sensor" && spec.SensorKind == "cmd") || (comp != "sensor" && spec.FanKind == "cmd")
 		if isCmd {
-			kinds = []string{"exit1", "garbage"}
+			// the command fails, prints garbage, or cannot be started any more (its path became a symlink loop, vanished,
+			// lost its execute bit)
+			kinds = []string{"exit1", "garbage", "script-eloop", "script-missing", "script-not-executable"}
 			if comp == "pwm-write" {
-				kinds = []string{"exit1"}
+				kinds = []string{"exit1", "script-eloop", "script-missing"}
 			}
 		} else if comp == "pwm-write" || comp == "mode-write" {
 			kinds = []string{"eio", "eacces"}
@@ -306,6 +329,7 @@ func c09Singles(spec RigSpec) []c09Fault {
 
 func init() {
 	register("C09", func(ctx *Ctx) {
+		ctx.AddSet("desktop_session", setupDesktop(ctx))
 		r := ctx.Rng
 		// the combination matrix, spread over the batches
 		var cases []*c09Case
